@@ -47,7 +47,7 @@ claim("C02", "DESIGN.md 6 C02",
       "Ledger theorems over the complete history closed by a drop (any drop point, a panic at any child poll, a poll after completion): every child dropped exactly once, "
       "every produced value returned xor dropped exactly once - join/try_join, merge, zip, both groups, chain, race, race_ok (successes and errors counted separately; "
       "the returned error aggregate is exactly the errors produced) and wait_until (future and stream form). Partial: that the unsafe code implements the PollState / MaybeUninit "
-      "tables is only exercised through the events it produces (drop counting on every trace), not modelled at byte level." + COMMON)
+      "tables is only exercised through the events it produces (drop counting on every trace; the thorough tier also runs 960 cases under Miri with heap-owning values: double free, leak, uninitialised read), not modelled at byte level." + COMMON)
 claim("C03", "DESIGN.md 6 C03",
       "Trace theorems: no child is polled after Ready / End / its drop event (join family, merge automaton runE, zip, groups chk, race, race_ok runK, chain runC, wait_until); "
       "polling outside a poll is excluded by the shape of the model's operations and compared position by position." + COMMON)
